@@ -134,13 +134,13 @@ RE_MOVE = re.compile(r"do_emplace<(\d+)>\(std::forward<(.+?)>\(\*reinterpret_cas
 RE_DESTROY = re.compile(r"reinterpret_cast<(.+?)\*>\(std::addressof\(internal_union_value_\.(\w+)\)\)->~(.+?)\(\);$")
 
 
-def parse_chain(s, pos, rhs, members, types, index_of):
+def parse_chain(s, pos, rhs, members, types, index_of, allow_separate=False):
     """Parse `if(<rhs>tag_==k){...}else if(...){...}` starting at pos. Returns (kind, branches, new pos).
     k is a literal or one of the class's own `IndexOf::<name>` constants."""
     branches, kind = [], None
     first = True
     while True:
-        m = re.compile((r"" if first else r"else") + r"if\(" + re.escape(rhs)
+        m = re.compile((r"" if first else (r"(?:else)?" if allow_separate else r"else")) + r"if\(" + re.escape(rhs)
                        + r"tag_==(?:(\d+)U?|(?:VariantType::)?IndexOf::(\w+))\)").match(s, pos)
         if not m:
             break
@@ -170,6 +170,9 @@ def parse_chain(s, pos, rhs, members, types, index_of):
         first = False
     if s.startswith("else", pos):
         raise CannotTranslate("chain has a trailing else: " + s[pos:pos + 80])
+    if allow_separate and len({b[0] for b in branches}) != len(branches):
+        # independent `if`s are the same as an else-if chain only when no tag is tested twice
+        raise CannotTranslate("a tag is tested twice by independent if statements")
     return kind, branches, pos
 
 
@@ -316,7 +319,8 @@ def parse_variant(header_text):
     methods["emplace"] = parse_body(body, members, types, index_of, allow_guard=False)
     _, body = find_method(cls, r"voiddestroy_current\(\)(?=\{)")
     if body:
-        kind, destroy, pos = parse_chain(body, 0, "", members, types, index_of)
+        # an else-if chain, or independent `if`s (equivalent: the branches do not change tag_ and test distinct tags)
+        kind, destroy, pos = parse_chain(body, 0, "", members, types, index_of, allow_separate=True)
         if pos != len(body) or kind != "destroy":
             raise CannotTranslate("destroy_current is not a single tag chain: " + body[pos:pos + 120])
     else:
